@@ -31,6 +31,7 @@ import (
 	"sort"
 	"strconv"
 	"strings"
+	"sync"
 	"time"
 
 	"github.com/siyul-park/uniflow/pkg/node"
@@ -360,6 +361,10 @@ type sim struct {
 	resps    []string
 	pending  int // requests sent and not yet answered at the source
 	maxInFl  int
+	// silent: this step delivered a packet to an in-port of a many-to-one node where it neither completed a
+	// group nor could be answered yet (its echo waits behind an older request of that in-port): nothing
+	// observable tells when the forward goroutine of that in-port has consumed it
+	silent bool
 }
 
 func newSim(g *gspec) *sim {
@@ -371,7 +376,9 @@ func newSim(g *gspec) *sim {
 	return s
 }
 
-func (s *sim) clear() { s.entries, s.arrivals, s.resps, s.internal = nil, nil, nil, nil }
+func (s *sim) clear() {
+	s.entries, s.arrivals, s.resps, s.internal, s.silent = nil, nil, nil, nil, false
+}
 
 func (s *sim) obs() string {
 	xs := append(append(append([]string{}, s.entries...), s.arrivals...), s.internal...)
@@ -440,6 +447,11 @@ func (s *sim) tryStart(n int) {
 			} else {
 				r.emitted, r.echoSelf = true, true
 				s.flush(n, p)
+				for _, x := range nd.inflight[p] {
+					if x == r {
+						s.silent = true
+					}
+				}
 			}
 		}
 	}
@@ -590,9 +602,22 @@ type event struct {
 	pck  *packet.Packet
 }
 
+// rigCore: the node objects, their links, the source's out-port and the sinks' in-ports – shared by every
+// process that runs through the workflow.
+type rigCore struct {
+	g        *gspec
+	nodes    []node.Node
+	src      *port.OutPort
+	sinkIn   []*port.InPort
+	mu       sync.Mutex
+	sessions map[*process.Process]*rig
+	stray    chan string // events of a process no session is (any longer) open for
+}
+
+// rig: one PROCESS running through the workflow: its source writer, sink readers, the gates of the
+// actions running in it and the events observed in it.
 type rig struct {
-	g       *gspec
-	nodes   []node.Node
+	*rigCore
 	proc    *process.Process
 	srcW    *packet.Writer
 	sinkR   []*packet.Reader
@@ -600,27 +625,50 @@ type rig struct {
 	gates   []chan cmd
 	ev      chan event
 	stopped chan struct{}
+	exited  bool
 }
 
-func buildRig(g *gspec) *rig {
-	rg := &rig{g: g, ev: make(chan event, 4096), stopped: make(chan struct{})}
+func (core *rigCore) session(proc *process.Process) *rig {
+	core.mu.Lock()
+	defer core.mu.Unlock()
+	return core.sessions[proc]
+}
+
+func buildRig(g *gspec) *rig { return buildCore(g).open() }
+
+func buildCore(g *gspec) *rigCore {
+	rg := &rigCore{g: g, sessions: map[*process.Process]*rig{}, stray: make(chan string, 256)}
 	for i, spec := range g.nodes {
 		i, spec := i, spec
-		gate := make(chan cmd)
-		rg.gates = append(rg.gates, gate)
-		wait := func(in *packet.Packet) (cmd, bool) {
+		// the action runs in the process it is called with: its events and its gate are that session's
+		enter := func(proc *process.Process, text string) *rig {
+			ss := rg.session(proc)
+			if ss == nil {
+				select {
+				case rg.stray <- text:
+				default:
+				}
+				return nil
+			}
+			ss.ev <- event{kind: 'E', text: text}
+			return ss
+		}
+		wait := func(ss *rig) (cmd, bool) {
+			if ss == nil {
+				return cmd{}, false
+			}
+			gate, stopped := ss.gates[i], ss.stopped
 			select {
 			case c := <-gate:
 				return c, true
-			case <-rg.stopped:
+			case <-stopped:
 				return cmd{}, false
 			}
 		}
 		switch spec.kind {
 		case 'o':
-			rg.nodes = append(rg.nodes, node.NewOneToOneNode(func(_ *process.Process, in *packet.Packet) (*packet.Packet, *packet.Packet) {
-				rg.ev <- event{kind: 'E', text: fmt.Sprintf("E%d:%s", i, canonPkt(in))}
-				c, ok := wait(in)
+			rg.nodes = append(rg.nodes, node.NewOneToOneNode(func(proc *process.Process, in *packet.Packet) (*packet.Packet, *packet.Packet) {
+				c, ok := wait(enter(proc, fmt.Sprintf("E%d:%s", i, canonPkt(in))))
 				if !ok {
 					return in, nil
 				}
@@ -635,9 +683,8 @@ func buildRig(g *gspec) *rig {
 				return in, nil
 			}))
 		case 'm':
-			n := node.NewOneToManyNode(func(_ *process.Process, in *packet.Packet) ([]*packet.Packet, *packet.Packet) {
-				rg.ev <- event{kind: 'E', text: fmt.Sprintf("E%d:%s", i, canonPkt(in))}
-				c, ok := wait(in)
+			n := node.NewOneToManyNode(func(proc *process.Process, in *packet.Packet) ([]*packet.Packet, *packet.Packet) {
+				c, ok := wait(enter(proc, fmt.Sprintf("E%d:%s", i, canonPkt(in))))
 				if !ok {
 					return nil, nil
 				}
@@ -666,13 +713,12 @@ func buildRig(g *gspec) *rig {
 			spec.firstAsk(node.PortOut, func(name string) { n.Out(name) })
 			rg.nodes = append(rg.nodes, n)
 		default:
-			n := node.NewManyToOneNode(func(_ *process.Process, ins []*packet.Packet) (*packet.Packet, *packet.Packet) {
+			n := node.NewManyToOneNode(func(proc *process.Process, ins []*packet.Packet) (*packet.Packet, *packet.Packet) {
 				pays := make([]string, len(ins))
 				for j, p := range ins {
 					pays[j] = canonPkt(p)
 				}
-				rg.ev <- event{kind: 'E', text: fmt.Sprintf("E%d:%s", i, strings.Join(pays, "+"))}
-				c, ok := wait(nil)
+				c, ok := wait(enter(proc, fmt.Sprintf("E%d:%s", i, strings.Join(pays, "+"))))
 				if !ok {
 					return nil, nil
 				}
@@ -703,24 +749,46 @@ func buildRig(g *gspec) *rig {
 		}
 		return rg.nodes[n].Out(node.PortOut)
 	}
-	sinkIn := make([]*port.InPort, g.nSinks)
-	for k := range sinkIn {
-		sinkIn[k] = port.NewIn()
+	rg.sinkIn = make([]*port.InPort, g.nSinks)
+	for k := range rg.sinkIn {
+		rg.sinkIn[k] = port.NewIn()
 	}
 	for _, l := range g.links {
 		for _, t := range l.ts {
 			if t.sink {
-				outPort(l.n, l.w).Link(sinkIn[t.k])
+				outPort(l.n, l.w).Link(rg.sinkIn[t.k])
 			} else {
 				outPort(l.n, l.w).Link(inPort(t.n, t.port))
 			}
 		}
 	}
+	rg.src = port.NewOut()
+	rg.src.Link(inPort(g.srcN, g.srcPort))
+	return rg
+}
+
+func (core *rigCore) inPort(n, p int) *port.InPort {
+	if core.g.nodes[n].kind == 'j' {
+		return core.nodes[n].In(core.g.nodes[n].portName(node.PortIn, p))
+	}
+	return core.nodes[n].In(node.PortIn)
+}
+
+// open starts a new process on the shared node objects.
+func (core *rigCore) open() *rig {
+	g := core.g
+	rg := &rig{rigCore: core, ev: make(chan event, 4096), stopped: make(chan struct{})}
+	for range g.nodes {
+		rg.gates = append(rg.gates, make(chan cmd))
+	}
 	rg.proc = process.New()
+	core.mu.Lock()
+	core.sessions[rg.proc] = rg
+	core.mu.Unlock()
 	for n, spec := range g.nodes {
 		for p := 0; p < nIn(spec); p++ {
 			n, p := n, p
-			r := inPort(n, p).Open(rg.proc)
+			r := core.inPort(n, p).Open(rg.proc)
 			r.AddInboundHook(packet.HookFunc(func(pck *packet.Packet) {
 				rg.ev <- event{kind: 'D', text: fmt.Sprintf("D%d.%d:%s", n, p, canonPkt(pck))}
 			}))
@@ -729,17 +797,15 @@ func buildRig(g *gspec) *rig {
 			}))
 		}
 	}
-	src := port.NewOut()
-	src.Link(inPort(g.srcN, g.srcPort))
-	rg.srcW = src.Open(rg.proc)
+	rg.srcW = core.src.Open(rg.proc)
 	go func(w *packet.Writer) {
 		for b := range w.Receive() {
 			rg.ev <- event{kind: 'R', text: "R" + canonPkt(b)}
 		}
 	}(rg.srcW)
 	rg.sinkQ = make([][]*packet.Packet, g.nSinks)
-	for k := range sinkIn {
-		r := sinkIn[k].Open(rg.proc)
+	for k := range core.sinkIn {
+		r := core.sinkIn[k].Open(rg.proc)
 		rg.sinkR = append(rg.sinkR, r)
 		go func(k int, r *packet.Reader) {
 			for p := range r.Read() {
@@ -750,11 +816,40 @@ func buildRig(g *gspec) *rig {
 	return rg
 }
 
-func (rg *rig) close() {
+// exit ends this process (the node objects stay).
+func (rg *rig) exit() {
+	if rg.exited {
+		return
+	}
+	rg.exited = true
 	rg.proc.Exit(nil)
 	close(rg.stopped)
-	for _, n := range rg.nodes {
+	rg.mu.Lock()
+	delete(rg.sessions, rg.proc)
+	rg.mu.Unlock()
+}
+
+func (core *rigCore) closeNodes() {
+	for _, n := range core.nodes {
 		_ = n.Close()
+	}
+}
+
+func (rg *rig) close() {
+	rg.exit()
+	rg.closeNodes()
+}
+
+// settleTracers waits until the tracers' size has been stable for a moment (bounded).
+func (rg *rig) settleTracers() {
+	last, stable := rg.tracerLen(), 0
+	for i := 0; i < 400 && stable < 8; i++ {
+		time.Sleep(50 * time.Microsecond)
+		if n := rg.tracerLen(); n == last {
+			stable++
+		} else {
+			last, stable = n, 0
+		}
 	}
 }
 
@@ -853,6 +948,8 @@ type caseRun struct {
 	steps   int
 	lastPck *packet.Packet // the packet object of the latest `send` (for `resend`)
 	lastVal string
+	multi   *multiRun // non-nil: one of several processes running through the same node objects
+	idx     int       // its number there (1-based)
 }
 
 func newCase(c *lib.Ctx, sc *lib.Script) *caseRun {
@@ -864,10 +961,18 @@ func newCase(c *lib.Ctx, sc *lib.Script) *caseRun {
 func (cr *caseRun) record(line, out string) {
 	cr.lines = append(cr.lines, line)
 	cr.impl = append(cr.impl, out)
+	if cr.multi != nil {
+		// the model runs per process: the lines are handed to it process by process at the end
+		cr.multi.log = append(cr.multi.log, fmt.Sprintf("%s\t=> impl (process %d): %s", line, cr.idx, out))
+		return
+	}
 	cr.sc.Op(line, out)
 }
 
 func (cr *caseRun) replay() string {
+	if cr.multi != nil {
+		return cr.multi.replay()
+	}
 	var b strings.Builder
 	for i, l := range cr.lines {
 		fmt.Fprintf(&b, "%s\t=> impl: %s\n", l, cr.impl[i])
@@ -1132,6 +1237,13 @@ func (cr *caseRun) exec(line string) bool {
 	want := sm.obs()
 	got, ok := rg.collect(len(sm.entries), len(sm.arrivals), len(sm.resps), len(sm.internal), grace)
 	// S1: the model's self-check that every response so far equals the reference answer of its request
+	if sm.silent {
+		// The forward goroutines of a many-to-one node's in-ports run concurrently: a packet delivered to
+		// another in-port by the NEXT step must not overtake this one inside the node (both orders are valid
+		// runs of the real node; the oracle and the model fix arrival order). Wait until the node's tracer
+		// has stopped changing (the goroutine registers the packet with `Read` and `Write(nil, in)`).
+		rg.settleTracers()
+	}
 	cr.record(line, external(got)+" S1")
 	for _, t := range strings.Fields(got) {
 		if strings.HasPrefix(t, "R") {
@@ -1169,6 +1281,232 @@ func (cr *caseRun) finish() {
 	if cr.rg != nil {
 		cr.rg.close()
 	}
+}
+
+// ------------------------------------------------------------------ several processes through the same nodes
+
+// multiRun: one workflow – ONE set of node objects – used by 2–3 processes, one after the other
+// (`newproc`: the current process exits, the next one starts) or at the same time (`newproc+`; `proc k`
+// switches the process the following lines belong to). Every process has its own source writer, sink
+// readers, requests, request-tree oracle and its own run of the Lean model (the Flow model is per
+// process: whatever the real nodes keep between processes must not show).
+type multiRun struct {
+	c       *lib.Ctx
+	sc      *lib.Script
+	topoRun *caseRun // parses the topology lines
+	topo    []string
+	core    *rigCore
+	ss      []*caseRun
+	cur     int
+	log     []string
+	fails   []lib.OracleFail
+}
+
+func newMulti(c *lib.Ctx, sc *lib.Script) *multiRun {
+	sortJoins = false
+	m := &multiRun{c: c, sc: sc}
+	m.topoRun = &caseRun{c: c, sc: sc, g: &gspec{}, multi: m}
+	return m
+}
+
+func (m *multiRun) replay() string { return strings.Join(m.log, "\n") + "\n" }
+
+func (m *multiRun) open() *caseRun {
+	if m.core == nil {
+		m.core = buildCore(m.topoRun.g)
+	}
+	cr := &caseRun{c: m.c, sc: m.sc, g: m.topoRun.g, multi: m, idx: len(m.ss) + 1}
+	for _, l := range m.topo {
+		cr.lines = append(cr.lines, l)
+		cr.impl = append(cr.impl, "ok")
+	}
+	cr.rg = m.core.open()
+	cr.sm = newSim(cr.g)
+	m.ss = append(m.ss, cr)
+	m.cur = len(m.ss) - 1
+	return cr
+}
+
+// exec runs one line of a multi-process case; false = unusable line.
+func (m *multiRun) exec(line string) bool {
+	f := strings.Fields(line)
+	if len(f) == 0 {
+		return true
+	}
+	if len(m.ss) == 0 {
+		if isTopo, ok := m.topoRun.topo(f); isTopo {
+			if ok {
+				m.topo = append(m.topo, line)
+				m.log = append(m.log, line)
+			}
+			return ok
+		}
+		if !m.topoRun.g.hasSrc {
+			return false
+		}
+	}
+	switch {
+	case len(f) == 1 && (f[0] == "newproc" || f[0] == "newproc+"):
+		if f[0] == "newproc" && len(m.ss) > 0 {
+			m.ss[m.cur].rg.exit()
+		}
+		m.log = append(m.log, line)
+		m.open()
+		return true
+	case len(f) == 2 && f[0] == "proc":
+		k, ok := atoi(f[1])
+		if !ok || k < 1 || k > len(m.ss) || m.ss[k-1].rg.exited {
+			return false
+		}
+		m.cur = k - 1
+		m.log = append(m.log, line)
+		return true
+	}
+	if len(m.ss) == 0 {
+		m.log = append(m.log, "newproc")
+		m.open()
+	}
+	cr := m.ss[m.cur]
+	if cr.rg.exited {
+		return false
+	}
+	return cr.exec(line)
+}
+
+func (m *multiRun) aborted() bool {
+	for _, cr := range m.ss {
+		if cr.aborted || len(cr.fails) > 0 {
+			return true
+		}
+	}
+	return false
+}
+
+// finish ends every process, closes the nodes and hands each process's lines to the model as a case of its own.
+func (m *multiRun) finish() {
+	for _, cr := range m.ss {
+		cr.rg.exit()
+	}
+	if m.core != nil {
+		m.core.closeNodes()
+		select {
+		case text := <-m.core.stray:
+			if len(m.ss) > 0 {
+				m.ss[0].fail("stray-event", "an action ran in a process no case process was open for: "+text)
+			}
+		default:
+		}
+	}
+	for _, cr := range m.ss {
+		m.fails = append(m.fails, cr.fails...)
+		m.sc.Begin()
+		for i, l := range cr.lines {
+			m.sc.Op(l, cr.impl[i])
+		}
+	}
+}
+
+// runMulti: a generated multi-process case.
+func runMulti(c *lib.Ctx, r *lib.RNG, sc *lib.Script, maxNodes int) *multiRun {
+	m := newMulti(c, sc)
+	defer m.finish()
+	// prefer workflows with a many-to-one node (its writers are opened lazily, per process)
+	var graph []string
+	for try := 0; try < 6; try++ {
+		graph = genGraph(r, c, maxNodes)
+		hasJ := false
+		for _, l := range graph {
+			if strings.HasPrefix(l, "node j") {
+				hasJ = true
+			}
+		}
+		if hasJ {
+			break
+		}
+	}
+	for _, l := range graph {
+		if !m.exec(l) {
+			m.topoRun.fail("generator", "generator produced an unusable line: "+l)
+			m.fails = append(m.fails, m.topoRun.fails...)
+			return m
+		}
+	}
+	at := &atoms{}
+	nProc := 2
+	if r.Chance(1, 4) {
+		nProc = 3
+	}
+	step := func(cr *caseRun, toSend int) bool {
+		l := genStep(r, c, cr, at, toSend)
+		if l == "" {
+			return false
+		}
+		if !m.exec(l) {
+			cr.fail("generator", "generator produced an unusable line: "+l)
+		}
+		return true
+	}
+	if r.Chance(1, 2) {
+		// one after the other; a later process often repeats the first one's schedule, so that a
+		// many-to-one node completes its groups through the same in-ports again
+		c.Hit("processes-sequential")
+		var first []string
+		for k := 0; k < nProc && !m.aborted(); k++ {
+			m.exec("newproc")
+			cr := m.ss[m.cur]
+			if k > 0 && r.Chance(3, 5) {
+				c.Hit("process-repeats-schedule")
+				for _, l := range first {
+					if m.aborted() || !m.exec(l) {
+						break
+					}
+				}
+			} else {
+				toSend := r.Range(1, 3)
+				for i := 0; i < 200 && !m.aborted() && step(cr, toSend); i++ {
+				}
+			}
+			if k == 0 {
+				first = append(first, cr.lines[len(m.topo):]...)
+			}
+			if !m.aborted() {
+				m.exec("end")
+			}
+		}
+		return m
+	}
+	c.Hit("processes-overlapping")
+	for k := 0; k < nProc; k++ {
+		m.exec("newproc+")
+	}
+	toSend := make([]int, nProc)
+	for k := range toSend {
+		toSend[k] = r.Range(1, 3)
+	}
+	done := false
+	for i := 0; i < 400 && !m.aborted(); i++ {
+		// a process that still has something to do, chosen at random
+		order := r.Intn(nProc)
+		progressed := false
+		for d := 0; d < nProc && !progressed; d++ {
+			k := (order + d) % nProc
+			if k != m.cur {
+				m.exec(fmt.Sprintf("proc %d", k+1))
+			}
+			progressed = step(m.ss[k], toSend[k])
+		}
+		if !progressed {
+			done = true
+			break
+		}
+	}
+	if done && !m.aborted() {
+		for k := 0; k < nProc && !m.aborted(); k++ {
+			m.exec(fmt.Sprintf("proc %d", k+1))
+			m.exec("end")
+		}
+	}
+	return m
 }
 
 // ------------------------------------------------------------------ generators
@@ -1578,6 +1916,29 @@ func runGenerated(c *lib.Ctx, r *lib.RNG, sc *lib.Script, maxNodes int) *caseRun
 	return cr
 }
 
+// runMultiLines: a corpus file with `newproc` / `newproc+` / `proc k` lines.
+func runMultiLines(c *lib.Ctx, sc *lib.Script, lines []string) *multiRun {
+	m := newMulti(c, sc)
+	defer m.finish()
+	for _, l := range lines {
+		if !m.exec(l) {
+			m.topoRun.fail("corpus", "unusable corpus line: "+l)
+			m.fails = append(m.fails, m.topoRun.fails...)
+			break
+		}
+	}
+	return m
+}
+
+func isMultiCorpus(lines []string) bool {
+	for _, l := range lines {
+		if strings.HasPrefix(strings.TrimSpace(l), "newproc") {
+			return true
+		}
+	}
+	return false
+}
+
 func runLines(c *lib.Ctx, sc *lib.Script, lines []string) *caseRun {
 	cr := newCase(c, sc)
 	defer cr.finish()
@@ -1603,11 +1964,13 @@ func account(c *lib.Ctx, cr *caseRun) {
 }
 
 func Run(c *lib.Ctx) {
-	c.Rule = "a case = a random acyclic workflow (1–6 real nodes: one-to-one, one-to-many, many-to-one; chains, fan-out, diamonds, fan-in to one input, unconnected and error outputs) + 1–4 pipelined requests (the source also re-sends the packet object of its previous request) + a random schedule of action releases (transform/identity/split/drop/fail, a fork handing its in packet to all outputs leading to one input) and sink answers (payload/same/None/error/nil), executed on the real nodes and on the Lean model, compared step by step (actions entered, sink arrivals, source responses); non-trivial = at least 2 requests in flight at once and ≥ 4 schedule steps, distinct by the full line list"
+	c.Rule = "a case = a random acyclic workflow (1–6 real nodes: one-to-one, one-to-many, many-to-one; chains, fan-out, diamonds, fan-in to one input, unconnected and error outputs) + 1–4 pipelined requests (the source also re-sends the packet object of its previous request) + a random schedule of action releases (transform/identity/split/drop/fail, a fork handing its in packet to all outputs leading to one input) and sink answers (payload/same/None/error/nil), executed on the real nodes and on the Lean model, compared step by step (actions entered, sink arrivals, source responses); every sixth case runs 2–3 PROCESSES through the same node objects – one after the other (the earlier one has exited) or at the same time with interleaved steps –, each with its own requests, request-tree oracle and run of the model (`newproc`, `newproc+`, `proc k` lines; a later sequential process often repeats the first one's schedule so that a many-to-one node completes its groups through the same in-ports again); non-trivial = at least 2 requests in flight at once and ≥ 4 schedule steps, distinct by the full line list"
 	c.Assumptions = []string{
 		"Writer/Reader honour the C01 contract on the paths used here (never closed, linked before the first write); the model of the edges in Uniflow.Flow is the fully-linked fragment only",
 		"each Tracer method is atomic (runs under Tracer.mu); the schedule interleaves whole forward iterations' Link/Write calls with backward Receive calls only at the points the harness controls (action blocked / sink holding); finer interleavings are covered by the theorem, not by the runs",
 		"no single schedule step delivers packets to two different in-ports of one many-to-one node (their grouping order would be a real race between two forward goroutines); the generator excludes such topologies",
+		"the forward goroutines of the in-ports of one many-to-one node run concurrently: after a step that delivers a packet to such an in-port without any observable effect (no group completed, its echo held behind an older request) the harness waits until the node's tracer has stopped changing before the next step, so that a delivery to another in-port cannot overtake it inside the node (both orders are valid runs; oracle and model fix arrival order)",
+		"the Flow model is per process: a multi-process case is compared process by process against a fresh model state – nothing the real nodes keep between processes may show",
 		"actions return fresh packets, nothing (also one-to-one: (nil, nil)), or the in packet itself – one-to-one; one-to-many on one or several outputs (`s k`), also next to new packets (`m … = …`) and with unconnected outputs among them. A port that gets the in packet NEXT TO NEW packets is always a connected one (without the fix node.derive the refused write's echo takes a new packet's slot and the process dies when that packet is answered: no replay could be written); graphs whose fork outputs all lead to one in-port still compare joins as multisets (`orderfree`)",
 		"the source may write the packet object of its previous request once more (`resend`): Writer.Write hands every reader a packet of its own, so this is an independent request",
 	}
@@ -1619,9 +1982,18 @@ func Run(c *lib.Ctx) {
 	sc := &lib.Script{}
 	var fails []lib.OracleFail
 	for _, f := range c.CorpusFiles() {
-		cr := runLines(c, sc, lib.ReadLines(f))
-		account(c, cr)
+		lines := lib.ReadLines(f)
 		c.Hit("corpus-case")
+		if isMultiCorpus(lines) {
+			m := runMultiLines(c, sc, lines)
+			for _, cr := range m.ss {
+				account(c, cr)
+			}
+			fails = append(fails, m.fails...)
+			continue
+		}
+		cr := runLines(c, sc, lines)
+		account(c, cr)
 		fails = append(fails, cr.fails...)
 	}
 	n := c.Scale(2500, 40000)
@@ -1629,6 +2001,19 @@ func Run(c *lib.Ctx) {
 	start := time.Now()
 	budget := time.Duration(c.Scale(25, 420)) * time.Second
 	for i := 0; i < n && time.Since(start) < budget; i++ {
+		if i%6 == 5 {
+			// several processes through the same node objects
+			m := runMulti(c, r.Fork(), sc, maxNodes)
+			for _, cr := range m.ss {
+				account(c, cr)
+			}
+			c.Hit("multi-process-case")
+			fails = append(fails, m.fails...)
+			if len(fails) > 20 {
+				break
+			}
+			continue
+		}
 		cr := runGenerated(c, r.Fork(), sc, maxNodes)
 		account(c, cr)
 		fails = append(fails, cr.fails...)
